@@ -537,4 +537,14 @@ theorem inv_wait (s : State) (t : Nat) (h : Inv s) (hw : waitMayReturn s t) :
     cases hpe : j.pend <;> cases hco : j.cont <;> simp only [Part.cnt] <;> grind
   omega
 
+theorem sumBy_indicator_count (x : Nat × Nat) (l : List (Nat × Nat)) :
+    sumBy (fun e => if e = x then 1 else 0) l = l.count x := by
+  induction l with
+  | nil => rfl
+  | cons a l ih =>
+    simp only [sumBy, ih, List.count_cons]
+    by_cases h : a = x
+    · simp [h]; omega
+    · simp [h]
+
 end RkVerif.C01
